@@ -42,7 +42,7 @@ class Worker:
             cmd = bin_cmd(self.binary) + ["--seeds", str(nxt), str(min(left, self.chunk)), str(self.stride), "--tier", str(self.tier_num), "--variant", self.variant] + self.extra
             if self.cpu is not None:   # all threads of one simulated process on one core: baton passing stays cheap
                 cmd = ["taskset", "-c", str(self.cpu)] + cmd
-            p = run_watched(cmd, self.env)
+            p = run_watched(cmd, self.env, RUN_TIMEOUT * (3 if self.tier_num else 1))   # thorough plans are up to 100 times larger
             done = 0
             last_seed = None
             for line in p.stdout.splitlines():
@@ -117,14 +117,14 @@ def sanitizer_summary(stderr):
     return ""
 
 
-def replay_once(binary, rec, plan, decisions, tmp_path, env=None):
+def replay_once(binary, rec, plan, decisions, tmp_path, env=None, timeout=None):
     """returns (class, record) of a fresh-process replay"""
     obj = {"property": rec.get("property", ""), "seed": rec["seed"], "variant": rec.get("variant", ""), "cfg": rec["cfg"], "plan": plan}
     if decisions is not None:
         obj["decisions"] = decisions
     json.dump(obj, open(tmp_path, "w"))
     try:
-        p = subprocess.run(bin_cmd(binary) + ["--replay", tmp_path], stdout=subprocess.PIPE, stderr=subprocess.PIPE, text=True, errors="replace", env=env, timeout=RUN_TIMEOUT)
+        p = subprocess.run(bin_cmd(binary) + ["--replay", tmp_path], stdout=subprocess.PIPE, stderr=subprocess.PIPE, text=True, errors="replace", env=env, timeout=timeout or RUN_TIMEOUT)
     except subprocess.TimeoutExpired:
         return "hang", {"detail": "WATCHDOG: no result within the wall-clock limit (busy loop outside any scheduling point)"}
     out = None
@@ -396,6 +396,7 @@ def run_sim_check(spec, args):
     reported = []
     rd = replay_dir(pid)
     machinery_errors = []
+    watchdog_artefacts = []
 
     def handle_group(item):
         gi, key = item
@@ -417,6 +418,15 @@ def run_sim_check(spec, args):
                     pr = json.loads(line)
                     rec["plan"], rec["cfg"], rec["text"] = pr["plan"], pr["cfg"], pr.get("text", "")
             rec["decisions"] = None
+        if cls == "hang" and "plan" in rec:
+            # the watchdog is a wall-clock device (no output for RUN_TIMEOUT seconds): on a loaded machine a long run can trip it.  The run is
+            # replayed alone with six times the limit; when it completes normally it was no hang, and it is only counted.
+            c0, o0 = replay_once(binaries[rec["variant"]], rec, rec["plan"], rec.get("decisions"), path + ".slow", env, timeout=6 * RUN_TIMEOUT)
+            if os.path.exists(path + ".slow"):
+                os.remove(path + ".slow")
+            if c0 == "ok":
+                watchdog_artefacts.append({"seed": rec["seed"], "variant": rec["variant"], "runs": len(g)})
+                return None
         if "plan" not in rec:
             json.dump({"property": pid, "seed": rec["seed"], "variant": rec["variant"], "class": cls, "detail": rec.get("detail", "")}, open(path, "w"), indent=1)
         else:
@@ -491,6 +501,7 @@ def run_sim_check(spec, args):
         "determinism_resampled_runs": len(sample), "determinism_mismatches": 0,
         "components": spec["components"],
         "findings": reported,
+        "watchdog_timeouts_that_completed_when_replayed_alone": watchdog_artefacts,
     }
     if not args.no_evidence:
         write_evidence(pid, args.tier, args.seed, spec["level"], coverage, spec["assumptions"], wall, sum(1 for e in reported if "known_finding" not in e))
